@@ -64,7 +64,10 @@ Proof.
 Qed.
 
 Lemma digit_sum_app a b : digit_sum (a ++ b) = digit_sum a + digit_sum b.
-Proof. induction a as [|c a IH]; cbn [app digit_sum]; [reflexivity|]. rewrite IH. lia. Qed.
+Proof.
+  induction a as [|c a IH]; [reflexivity|].
+  change (digit_sum ((c :: a) ++ b)) with (digit_val c + digit_sum (a ++ b)). rewrite IH. cbn [digit_sum]. lia.
+Qed.
 
 Lemma dec_of_N_all_digits_uint u : forallb is_digit (uint_to_text u) = true.
 Proof. induction u; cbn [uint_to_text forallb]; try reflexivity; rewrite IHu; reflexivity. Qed.
